@@ -46,6 +46,12 @@ func ePermuteValues(r *rng, mods []string) (out []string) {
 	return out
 }
 
+func wholeRegex(t string) bool {
+	t = strings.TrimPrefix(t, "@@")
+
+	return strings.HasPrefix(t, "/") && strings.HasSuffix(t, "/")
+}
+
 func genC04Perm(r *rng, n int, w *bufio.Writer) {
 	r = eReseed(r)
 	for i := 0; i < n; i++ {
@@ -61,6 +67,15 @@ func genC04Perm(r *rng, n int, w *bufio.Writer) {
 		}
 		t1 := prefix + "$" + strings.Join(mods, ",")
 		t2 := prefix + "$" + strings.Join(ePermuteValues(r, mods), ",")
+		// A text that begins AND ends with "/" is read as one regex pattern without options
+		// (parseRuleText), so a malformed value ending in "/" (not in the modifier grammar of
+		// C04: "1.2.3.4/", "x/") moved to the end of a "/regex/$…" rule changes the kind of the
+		// rule.  That is the documented regex-rule syntax, not a value-order effect: skip.
+		if wholeRegex(t1) || wholeRegex(t2) {
+			i--
+
+			continue
+		}
 		f1, err1 := guardRule(t1, 1)
 		f2, err2 := guardRule(t2, 1)
 		ans, why := "T", ""
